@@ -25,7 +25,7 @@ type c37reg struct {
 	timeout   time.Duration
 	fired     int
 	firedAt   time.Duration
-	cancelled bool          // superseded by a later Add or removed
+	cancelled bool // superseded by a later Add or removed
 	cancelAt  time.Duration
 }
 
@@ -77,8 +77,32 @@ func runC37(r *simkit.Run) {
 		}
 	}
 	superseded, removed, fired := 0, 0, 0
+	burstDone := false
 	for i := 0; i < nOps && !r.Failed(); i++ {
 		key := fmt.Sprintf("k%d", tp.Choose(nKeys))
+		if !burstDone && tp.Chance(1, 16) {
+			// a burst of activity of many other sessions inside one tick (the wheel may drop refreshes it cannot
+			// queue: nothing is claimed about those sessions), then a watched session ends. Its removal must
+			// hold however busy the wheel is. Nothing else is registered until the wheel has caught up.
+			burstDone = true
+			n := []int{200, 3000, 5000, 9000}[tp.Choose(4)]
+			for b := 0; b < n; b++ {
+				tw.Add(time.Duration(tp.Range(1, 2*buckets))*tick, fmt.Sprintf("bulk%d", b%1500), func() {})
+			}
+			if old := latest[key]; old != nil && !old.cancelled && old.fired == 0 {
+				old.cancelled, old.cancelAt = true, r.Now()
+				removed++
+				r.Probe("removed-during-a-burst")
+			}
+			r.Steps++
+			r.Sched("burst-remove", fmt.Sprintf("%s/%d", key, n))
+			r.Logf("%d burst of %d registrations of other sessions, then remove key=%s at %v", r.Steps, n, key, r.Now())
+			tw.Remove(key)
+			r.Advance(tick + time.Millisecond)
+			checkOverdue()
+			r.Settle()
+			continue
+		}
 		switch op := tp.Choose(8); {
 		case op <= 3: // add / refresh
 			// timeouts below, equal to and several multiples of the span, always whole ticks
